@@ -516,8 +516,70 @@ def r11_property_type_is_the_declared_element_type(ctx, rule="C04.R11"):
                            "%s builds a Property node whose type is %s, not the type the TYPE declares for the element: the "
                            "generator picks FixLength / Cast from this type, so a STRING * n field referenced as `x.f$` is "
                            "stored like a plain STRING and holds a value of any length" % (name, ", ".join(bad)))
+    # the same for Variable and ArrayElement nodes: the type is the declared one from the name table
+    # (`var_info.expression_type`, for an element the element type of the declared array), handed in / copied
+    # from the node being rewritten, or - for a variable that has no declaration (an implicit variable, the
+    # result variable of a function) - BuiltIn(q) of the very qualifier the node's name is built with
+    for f in sorted(prog.fns.values(), key=lambda f: f.id):
+        if f.crate != "rusty_linter" or f.body is None or "converter" not in f.id:
+            continue
+        body = f.body
+        pv = mir.Prov(body)
+        for b, blk in enumerate(body.blocks):
+            if body.is_cleanup(b):
+                continue
+            for st in blk["s"]:
+                r = st.get("r", {})
+                if not (st["k"] == "assign" and r.get("k") == "agg" and r.get("a") == "adt"
+                        and r["adt"].endswith("::Expression") and r["variant"] in ("Variable", "ArrayElement") and len(r["ops"]) >= 2):
+                    continue
+                n += 1
+                bad = []
+                name_o = str(pv.of_operand(r["ops"][0]))
+                # does the function have a declaration at hand (a VariableInfo)?  Then only its type will do
+                has_decl = any(isinstance(e, dict) and e.get("n") in ("var_info", "expression_type")
+                               for blk2 in body.blocks if not blk2.get("c") for st2 in blk2["s"] if st2["k"] == "assign"
+                               for pl2 in ([st2["r"].get("p")] if st2["r"].get("p") else []) +
+                               ([mir.op_place(st2["r"]["o"])] if st2["r"].get("o") and mir.op_place(st2["r"]["o"]) else [])
+                               for e in pl2[1])
+                for o in _all_origins(body, r["ops"][-1]):
+                    so = mir.strip_all(o)
+                    declared = _is_declared_type(so)
+                    handed = so[0] == "param" or (so[0] == "field" and mir.origin_mentions(so, lambda z: z[0] == "param"))
+                    own_q = False
+                    if so[0] == "agg" and (so[2] or "").endswith("ExpressionType::BuiltIn") and so[3]:
+                        q = str(mir.strip_all(so[3][0]))
+                        # the qualifier the name carries: the same origin (or the qualifier *of* the name)
+                        inner = q[len("expect(qualifier(&"):] if q.startswith("expect(qualifier(&") else q
+                        own_q = q in name_o or any(part and part in name_o for part in (inner.split(")")[0] + ")", inner.split(",")[0]))
+                    if not (declared or handed or (own_q and not has_decl)):
+                        bad.append(mir.short_origin(so))
+                name = f.path.split("::", 1)[1]
+                k = sum(1 for x in ctx.obs if x.key.startswith("%s:%s" % (rule, name)))
+                ctx.decide(not bad, rule, "%s:%s%s" % (rule, name, "#%d" % k if k else ""), "%s:%s" % (f.file, st.get("ln")),
+                           "the type of the %s node is the declared type (or BuiltIn of the name's own qualifier)" % r["variant"],
+                           "%s builds a %s node whose type is %s: not the declared type of the variable, nor the qualifier its own "
+                           "name carries - the generator converts and fixes lengths by this type" % (name, r["variant"], ", ".join(bad)))
     ctx.analysed_units(rule, property_nodes_built=n)
-    ctx.require(rule, 2)
+    ctx.require(rule, 5)
+
+
+def _is_declared_type(o):
+    """the origin is the `expression_type` field of a declaration, or a part of it (the element type of a
+    declared array), reached through clones / unwraps only - not something computed from it"""
+    for _ in range(12):
+        o = mir.strip_all(o)
+        if o[0] == "field":
+            if o[2] == "expression_type":
+                return True
+            o = o[1]
+        elif o[0] == "downcast":
+            o = o[1]
+        elif o[0] == "call" and o[1].split("::")[-1] in ("unwrap", "clone", "expect", "as_ref", "deref", "cloned") and o[2]:
+            o = o[2][0]
+        else:
+            return False
+    return False
 
 
 def _locals_of(body, o):
